@@ -11,7 +11,11 @@ Inductive item :=
 | IOp (acts : list (act * aobs)) (commit : bool)
       (evt : option (Z * list Z * bool * bool))      (* MarketStateUpdated: rev, pool kinds, clocks?, other? *)
       (snap : list (list Z)).                        (* storage values of keys 0..17 after the operation *)
-Inductive case := Hist (t0 : Z) (h : list item).
+(* one liquidity-market operation: accesses with observations, commit?, token-program CPIs seen *)
+Inductive lmop := LMOp (acts : list (lact * aobs)) (cm : bool) (cpis : list (Z * Z)).
+Inductive case :=
+| Hist (t0 : Z) (h : list item)
+| LMHist (supply0 : Z) (h : list lmop).       (* mint supply evolves through the executed CPIs *)
 
 Fixpoint zl_eqb (a b : list Z) : bool :=
   match a, b with [], [] => true | x :: r, y :: s => (x =? y) && zl_eqb r s | _, _ => false end.
@@ -60,7 +64,32 @@ Fixpoint mrun (now : Z) (m : bstate) (h : list item) : bool :=
       end
   end.
 
-Definition corr_b (c : case) : bool := match c with Hist t0 h => mrun t0 (init t0) h end.
+Fixpoint pl_eqb (a b : list (Z * Z)) : bool :=
+  match a, b with
+  | [], [] => true
+  | (x, y) :: r, (x', y') :: s => (x =? x') && (y =? y') && pl_eqb r s
+  | _, _ => false
+  end.
+Fixpoint lmacts (l : lm) (acts : list (lact * aobs)) : option lm :=
+  match acts with
+  | [] => Some l
+  | (a, o) :: r => let '(l', o') := lm_step l a in if aobs_eqb o' o then lmacts l' r else None
+  end.
+Fixpoint lmrun (sup : Z) (h : list lmop) : bool :=
+  match h with
+  | [] => true
+  | LMOp acts cm cpis :: r =>
+      match lmacts (mklm sup 0 0) acts with
+      | None => false
+      | Some l => pl_eqb (lm_cpis l cm) cpis && lmrun (lm_finish l cm) r
+      end
+  end.
+
+Definition corr_b (c : case) : bool :=
+  match c with
+  | Hist t0 h => mrun t0 (init t0) h
+  | LMHist sup h => lmrun sup h
+  end.
 
 (* ---------- oracle: plain transaction semantics, no revisions ----------
    committed store S (18 value vectors) and the write-set W of the running operation. *)
@@ -140,6 +169,41 @@ Fixpoint orun (now nops : Z) (S : list (list Z)) (h : list item) : bool :=
 
 Definition init_store (t0 : Z) : list (list Z) := repeat [0; 0] 16 ++ [[t0; t0; t0]; [0; 0; 0]].
 
-Definition oracle_b (c : case) : bool := match c with Hist t0 h => orun t0 0 (init_store t0) h end.
+(* oracle for the deferral: nothing reaches the token program unless the operation commits, and a
+   commit mints / burns exactly the sum of the successful requests; in-operation supply view = base
+   + requested mints - requested burns; requests are refused when they would overflow / overdraw *)
+Fixpoint olm (sup tm tb : Z) (acts : list (lact * aobs)) : option (Z * Z) :=
+  match acts with
+  | [] => Some (tm, tb)
+  | (LMint amt, OCode c) :: r =>
+      if (amt <? 2 ^ 64) && (sup + tm + amt <? 2 ^ 64)
+      then (if c =? 0 then olm sup (tm + amt) tb r else None)
+      else (if c =? 1 then olm sup tm tb r else None)
+  | (LBurn amt, OCode c) :: r =>
+      if (amt <? 2 ^ 64) && (tb + amt <=? sup)
+      then (if c =? 0 then olm sup tm (tb + amt) r else None)
+      else (if c =? 1 then olm sup tm tb r else None)
+  | (LSupply, OVal v) :: r => if v =? sup + tm - tb then olm sup tm tb r else None
+  | _ => None
+  end.
+Fixpoint olmrun (sup : Z) (h : list lmop) : bool :=
+  match h with
+  | [] => true
+  | LMOp acts cm cpis :: r =>
+      match olm sup 0 0 acts with
+      | None => false
+      | Some (tm, tb) =>
+          if cm then
+            pl_eqb cpis ((if tm =? 0 then [] else [(7, tm)]) ++ (if tb =? 0 then [] else [(8, tb)]))
+            && olmrun (sup + tm - tb) r
+          else pl_eqb cpis [] && olmrun sup r
+      end
+  end.
+
+Definition oracle_b (c : case) : bool :=
+  match c with
+  | Hist t0 h => orun t0 0 (init_store t0) h
+  | LMHist sup h => (0 <=? sup) && (sup <? 2 ^ 64) && olmrun sup h
+  end.
 
 Definition known_b (c : case) : Z := 0.
